@@ -129,14 +129,10 @@ Theorem cellunion_region_predicates_safe : forall l c, all_valid l -> normal l -
 Proof. intros l c Vl Nl Vc. split; [exact (cu_contains_sound l Vl Nl c Vc)|exact (cu_intersects_sound l Vl Nl c Vc)]. Qed.
 Print Assumptions cellunion_region_predicates_safe.
 
-(* KNOWN FINDING on the unchanged tree (KNOWN_FINDINGS.jsonl, kinds "...:westward-cell-edge"): the premise
-   SoundI is FALSE for s2.Rect as implemented.  Rect.IntersectsCell builds the longitude span of a cell
-   edge with s1.IntervalFromEndpoints (the complement of the span when the edge runs westward) and then
-   skips every boundary test for that edge; e.g. Rect lat [42.55,60.47] deg x lng [-44.1,44.1] deg and
-   face cell 0 share the point (43.77 deg, 0) but IntersectsCell is false and Covering drops the face.
-   The theorems above are unaffected (SoundI is their premise); for lat-lng rectangles they say nothing
-   until that predicate is repaired (s1.IntervalFromPointPair).  Found and replayed by the observer's
-   grazing family on every run. *)
+(* FIXED FINDING (/repo 38de577; KNOWN_FINDINGS.jsonl): SoundI used to be false for s2.Rect, because
+   Rect.IntersectsCell skipped every boundary test for a cell edge running westward.  SoundI for s2.Rect
+   is again a premise (H-LATBOUND) attacked by the observer's grazing family; the old witness is a
+   regression input of the corpus. *)
 
 (* TODO (not proved; covered by the observer's search on every run):
    - FallbackTotal (cu_fallback depth cubound): the nesting depth of the "very large covering" branch.
